@@ -254,12 +254,19 @@ ACCEPT_RECV = ('letrecv=ready!(self.incoming_uni.poll_next_unpin(cx)).expect("se
                '.map_err(convert_connection_error)?;Poll::Ready(Ok(Self::RecvStream::new(recv)))')
 OPENER = 'OpenStreams{conn:self.conn.clone(),opening_bi:None,opening_uni:None,}'
 CLONE = 'Self{conn:self.conn.clone(),opening_bi:None,opening_uni:None,}'
-POLL_DATA = ('ifletSome(mutstream)=self.stream.take(){self.read_chunk_fut.set(asyncmove{letchunk=stream.read_chunk(usize::MAX,true).await;(stream,chunk)})};'
+# poll_data: [sticky reset reported again] take/set the read future, poll it, [deliver a deferred stop] [put the stream
+# back] [remember the peer's reset] convert the chunk
+POLL_DATA = ('%s'
+             'ifletSome(mutstream)=self.stream.take(){self.read_chunk_fut.set(asyncmove{letchunk=stream.read_chunk(usize::MAX,true).await;(stream,chunk)})};'
              'let(mutstream,chunk)=ready!(self.read_chunk_fut.poll(cx));'
-             '%s%s'
+             '%s%s%s'
              'Poll::Ready(Ok(chunk.map_err(convert_read_error_to_stream_error)?.map(|c|c.bytes)))')
 POLL_DATA_STOP = 'ifletSome(error_code)=self.pending_stop.take(){let_=stream.stop(error_code);}'
 POLL_DATA_PUT = 'self.stream=Some(stream);'
+# the memo of the peer's reset (quinn answers every read after the one that reported the reset with a clean end of
+# stream): checked first, recorded from the raw ReadError before the chunk is converted
+POLL_DATA_MEMO_HEAD = 'ifletSome(error_code)=self.reset{returnPoll::Ready(Err(StreamErrorIncoming::StreamTerminated{error_code}));}'
+POLL_DATA_MEMO_REC = 'ifletErr(ReadError::Reset(error_code))=&chunk{self.reset=Some(error_code.into_inner());}'
 POLL_SEND_GUARD = 'ifself.writing.is_some(){panic!("poll_sendcalledwhilesendstreamisnotready")}'
 POLL_SEND_REST = ('lets=Pin::new(&mutself.stream);letres=ready!(s.poll_write(cx,buf.chunk()));matchres{'
                   'Ok(written)=>{buf.advance(written);Poll::Ready(Ok(written))}'
@@ -305,20 +312,26 @@ def extract_sites(src, f, spans):
         raise AnchorLost('poll_send is not the known body: ' + got[:200])
     # poll_data: statement order pinned (stop delivery and put-back happen BEFORE the `?` on the chunk)
     got = body_of(r'impl\s+quic::RecvStream\s+for\s+RecvStream\s*\{', 'poll_data', 'poll_data')
-    ok = False
-    for stop in (True, False):
-        for put in (True, False):
-            if got == POLL_DATA % (POLL_DATA_STOP if stop else '', POLL_DATA_PUT if put else ''):
-                ok = True
-    # known variant: the chunk's error is converted (and returned by `?`) BEFORE the stream is put back,
-    # i.e. after a failed read the stream is lost
-    alt = POLL_DATA.replace('Poll::Ready(Ok(chunk.map_err(convert_read_error_to_stream_error)?.map(|c|c.bytes)))',
-                            'Poll::Ready(Ok(chunk.map(|c|c.bytes)))') % (
-        POLL_DATA_STOP, 'letchunk=chunk.map_err(convert_read_error_to_stream_error)?;' + POLL_DATA_PUT)
+    # the reset memo is either there completely (checked first AND recorded after the put-back) or not at all
     f['poll_data_puts_back_on_error'] = True
-    if got == alt:
-        f['poll_data_puts_back_on_error'] = False
-    elif not ok and got != POLL_DATA % (POLL_DATA_STOP, 'drop(stream);'):
+    f['poll_data_reset_memo'] = None
+    for memo in (True, False):
+        head, rec = (POLL_DATA_MEMO_HEAD, POLL_DATA_MEMO_REC) if memo else ('', '')
+        for stop in (True, False):
+            for put in (True, False):
+                if got == POLL_DATA % (head, POLL_DATA_STOP if stop else '', POLL_DATA_PUT if put else '', rec):
+                    f['poll_data_reset_memo'] = memo
+        # known variant: the chunk's error is converted (and returned by `?`) BEFORE the stream is put back,
+        # i.e. after a failed read the stream is lost
+        alt = POLL_DATA.replace('Poll::Ready(Ok(chunk.map_err(convert_read_error_to_stream_error)?.map(|c|c.bytes)))',
+                                'Poll::Ready(Ok(chunk.map(|c|c.bytes)))') % (
+            head, POLL_DATA_STOP, rec, 'letchunk=chunk.map_err(convert_read_error_to_stream_error)?;' + POLL_DATA_PUT)
+        if got == alt:
+            f['poll_data_puts_back_on_error'] = False
+            f['poll_data_reset_memo'] = memo
+        if got == POLL_DATA % (head, POLL_DATA_STOP, 'drop(stream);', rec):
+            f['poll_data_reset_memo'] = memo
+    if f['poll_data_reset_memo'] is None:
         raise AnchorLost('poll_data is not the known statement sequence: ' + got[:200])
 
 
@@ -404,9 +417,15 @@ def extract(repo):
     # never a silently negated fact
     _, _, m = src.item_block(r'impl\s+RecvStream\s*\{')
     body, spans['RecvStream::new'] = src.fn_body('new', after=m.start())
-    if squash(body) != ('letis_0rtt=stream.is_0rtt();letnum:u64=stream.id().into();Self{id:num.try_into().expect("invalidstreamid"),'
-                        'stream:Some(stream),read_chunk_fut:ReusableBoxFuture::new(async{unreachable!()}),is_0rtt,pending_stop:None,}'):
-        raise AnchorLost('RecvStream::new is not the known body: ' + squash(body)[:160])
+    new_body = ('letis_0rtt=stream.is_0rtt();letnum:u64=stream.id().into();Self{id:num.try_into().expect("invalidstreamid"),'
+                'stream:Some(stream),read_chunk_fut:ReusableBoxFuture::new(async{unreachable!()}),is_0rtt,pending_stop:None,%s}')
+    if squash(body) != new_body % ('reset:None,' if f['poll_data_reset_memo'] else ''):
+        raise AnchorLost('RecvStream::new is not the known body (the reset memo starts empty exactly when poll_data keeps one): '
+                         + squash(body)[:200])
+    # no other statement of the file touches the memo
+    uses = re.findall(r'self\.reset\b(?!\()', src.text)
+    if len(uses) != (2 if f['poll_data_reset_memo'] else 0):
+        raise AnchorLost('self.reset is used %d times in lib.rs (known: checked once and set once in poll_data)' % len(uses))
     f['recv_new_caches_id'] = True
     _, _, m = src.item_block(r'impl<B>\s+SendStream<B>\s+where')
     body, spans['SendStream::new'] = src.fn_body('new', after=m.start())
@@ -438,15 +457,21 @@ def extract(repo):
     # ---- SendStream
     _, _, m = src.item_block(r'impl<B>\s+quic::SendStream<B>\s+for\s+SendStream<B>')
     body, spans['poll_ready'] = src.fn_body('poll_ready', after=m.start())
+    # the write error is returned with `?` (the buffer stays in `writing`), or the buffer is given up first
     loop = ('ifletSome(refmutdata)=self.writing{whiledata.has_remaining(){letstream=Pin::new(&mutself.stream);'
-            'letwritten=ready!(stream.poll_write(cx,data.chunk())).map_err(convert_write_error_to_stream_error)?;'
+            'letwritten=%s'
             'data.advance(written);}}')
+    keep = 'ready!(stream.poll_write(cx,data.chunk())).map_err(convert_write_error_to_stream_error)?;'
+    give_up = ('matchready!(stream.poll_write(cx,data.chunk())){Ok(written)=>written,Err(error)=>{self.writing=None;'
+               'returnPoll::Ready(Err(convert_write_error_to_stream_error(error)));}};')
     flat = squash(body)
-    if flat == loop + 'self.writing=None;Poll::Ready(Ok(()))':
-        f['poll_ready_clears_writing'] = True
-    elif flat == loop + 'Poll::Ready(Ok(()))':
-        f['poll_ready_clears_writing'] = False
-    else:
+    f['poll_ready_gives_up_on_error'] = None
+    for gives_up, stmt in ((False, keep), (True, give_up)):
+        if flat == loop % stmt + 'self.writing=None;Poll::Ready(Ok(()))':
+            f['poll_ready_clears_writing'], f['poll_ready_gives_up_on_error'] = True, gives_up
+        elif flat == loop % stmt + 'Poll::Ready(Ok(()))':
+            f['poll_ready_clears_writing'], f['poll_ready_gives_up_on_error'] = False, gives_up
+    if f['poll_ready_gives_up_on_error'] is None:
         raise AnchorLost('poll_ready is not the known body (loop over poll_write advancing by the accepted count, '
                          'then `self.writing = None`): ' + flat[:240])
     f['poll_ready_advances_by_written'] = True
@@ -549,6 +574,10 @@ def render(f):
     L.append('Definition reset_saturates : bool := %s.' % b(f['reset_saturates']))
     L.append('Definition poll_data_puts_back_on_error : bool := %s.' % b(f['poll_data_puts_back_on_error']))
     L.append('Definition poll_finish_drains : bool := %s.' % b(f['poll_finish_drains']))
+    L.append('(* poll_ready, on a write error: `self.writing = None` before the error is returned (the rest of the buffer is given up) *)')
+    L.append('Definition poll_ready_gives_up_on_error : bool := %s.' % b(f['poll_ready_gives_up_on_error']))
+    L.append('(* poll_data keeps the code of the peer\'s reset once a read has reported it and reports it again, first thing *)')
+    L.append('Definition poll_data_reset_memo : bool := %s.' % b(f['poll_data_reset_memo']))
     return '\n'.join(L) + '\n'
 
 
